@@ -6,7 +6,9 @@ import threading
 
 _state = threading.local()
 _installed = False
-ALLOW = {"compile", "marshal.loads"}
+# (builtins.id and sys._getframe* are raised by id() and by warnings/logging looking at the caller's frame: introspection, not one of the
+# actions the property forbids - a decoder may do that without harm)
+ALLOW = {"compile", "marshal.loads", "builtins.id", "sys._getframe", "sys._getframemodulename"}
 
 
 def _hook(event, args):
